@@ -35,7 +35,22 @@ import (
 	"verif/internal/textgen"
 )
 
-func TestMain(m *testing.M) { ev.Main(m) }
+// TestMain is ev.Main(m), except in the worker processes of native fuzzing: `go test -fuzz` runs
+// several copies of this binary with the same environment, and their concurrent flushes would
+// interleave in the one $VERIF_OUT/counters.json (seen: the driver could not parse it). Workers
+// therefore keep fail.json (atomic rename) but write neither counters nor journal; the
+// coordinator process flushes as usual.
+func TestMain(m *testing.M) {
+	for _, a := range os.Args[1:] {
+		if strings.HasPrefix(a, "-test.fuzzworker") {
+			fuzzWorker = true
+			os.Exit(m.Run())
+		}
+	}
+	ev.Main(m)
+}
+
+var fuzzWorker bool
 
 const (
 	checkName = "shape"
@@ -421,7 +436,9 @@ func checkCase(t ev.TB, c sc.Case) {
 			return
 		}
 	}
-	ev.Journal(checkName, c)
+	if !fuzzWorker {
+		ev.Journal(checkName, c)
+	}
 	s, verdict, pnc, elapsed := execute(&c, face)
 	if pnc != nil {
 		if id := knownPanic(pnc); id != "" && ev.Known(id) {
